@@ -187,7 +187,7 @@ int cmdBatch( int argc, char* argv[])
    Stats       st;
    initStats( st);
    uint64_t    runs = 0, nontrivial = 0, failures = 0, sim_time = 0;
-   uint64_t    rechecked = 0, recheck_mismatch = 0, events = 0;
+   uint64_t    rechecked = 0, recheck_mismatch = 0, events = 0, ok_mismatch_reported = 0;
    std::unordered_set< uint64_t>  hashes;
    std::map< std::string, uint64_t>  outcomes;
    bool        deadline_hit = false, poisoned_exit = false;
@@ -257,9 +257,13 @@ int cmdBatch( int argc, char* argv[])
          ++rechecked;
          bool  same = (r2.outcome == r.outcome) && (r2.oracle == r.oracle) && (r2.hash == r.hash);
          if (!same) ++recheck_mismatch;
+         // a clean run whose re-run differs is worth a note (a few of them), but
+         // it is no reason to end the batch early
+         if (r.ok() && !same && ++ok_mismatch_reported > 3)
+            continue;
          if (!r.ok() || !same)
          {
-            ++failures;
+            if (!r.ok()) ++failures;
             Json  j = Json::object();
             j[ "index"] = idx;
             j[ "seed"] = hex( seed);
